@@ -137,3 +137,10 @@ Qed.
 (* maps are sequences of 2-tuples: same bytes *)
 Example map_is_seq_of_pairs : forall k v, TMap k v = TSeq (TTuple [k; v]).
 Proof. reflexivity. Qed.
+
+(* a sequence of u8 and a byte string have the same encoding *)
+Lemma seq_u8_is_bytes : forall bs, encode (VSeq (map VU8 bs)) = encode (VBytes bs).
+Proof.
+  intros bs. cbn [encode]. rewrite map_length. f_equal.
+  induction bs as [|x bs IH]; [reflexivity|]. cbn [map flat_map encode app]. f_equal. exact IH.
+Qed.
